@@ -322,16 +322,23 @@ namespace
 
     // Both cooked and raw DIE's have parents (unless they don't, in
     // which case we are already at root).  But for cooked DIE's,
-    // when the parent is partial unit root, we need to traverse
-    // further along the import chain.
+    // when the parent is the root of an imported unit (a partial
+    // unit, or a normal one: DW_AT_import may refer to either), we
+    // need to traverse further along the import chain.
+    auto is_unit_root = [] (Dwarf_Die &die)
+      {
+	Dwarf_Die cudie = dwpp_cudie (die);
+	return dwarf_dieoffset (&die) == dwarf_dieoffset (&cudie);
+      };
+
     Dwarf_Die par_die;
     do
       if (! get_parent (*a, par_die))
 	return nullptr;
     while (d == doneness::cooked
-	   // Import another partial unit if possible, and keep
-	   // looking for the actual parent.
-	   && dwarf_tag (&par_die) == DW_TAG_partial_unit
+	   // Leave the imported unit if possible, and keep looking
+	   // for the actual parent.
+	   && is_unit_root (par_die)
 	   && a->get_import () != nullptr
 	   && (a = a->get_import ().get ()));
 
